@@ -380,7 +380,7 @@ def roundtrip(path: tuple[str, ...], cfg: Any, res: Result, rp: dict[str, Any], 
         if not M.equal_config_value(a, b):
             res.violate(
                 f"C18|roundtrip|value-changed|{kinds.get(name, name)}",
-                f"field {name}: {a!r} reloaded as {b!r} {where}",
+                f"field {name}: {M.canon(a)!r} reloaded as {M.canon(b)!r} {where}",
                 rp,
             )
 
@@ -534,8 +534,10 @@ def run_case(
     res.notes.setdefault("kinds", {})
     res.notes["kinds"][opt.kind.label()] = res.notes["kinds"].get(opt.kind.label(), 0) + 1
 
+    res.count("precedence_cases")
     if want_src == "default" and opt.required:
-        # nothing provides a value: must be refused, naming the option
+        # nothing provides a value: must be refused
+        res.count("required_missing_cases")
         if got["status"] == "exit" and got["code"] not in (0, None):
             res.count("required_missing_rejected")
         else:
@@ -569,7 +571,7 @@ def run_case(
         )
         return
     res.count("precedence_ok")
-    if len(res.samples) < 1 and len(provided) == 3 and opt.kind.name != "bool" and len({v.idx for v in vals.values()}) == 3:
+    if path == ("scan", "uds", "sessions") and opt.name in ("power_cycle_sleep", "verbose", "ecu_reset") and len(res.samples) < 1 and len(provided) == 3:
         res.sample({"argv": argv, "env": env, "file": file_entries, "winner": want_src, "value": repr(getattr(got["cfg"], opt.name))})
     roundtrip(path, got["cfg"], res, rp, where)
 
@@ -733,6 +735,8 @@ def run_command(path: tuple[str, ...], tier: str) -> Result:
             if M.canon(getattr(gf["cfg"], n)) != M.canon(getattr(gp["cfg"], n)):
                 raise Broken(f"pruned tree differs from the full tree for {' '.join(path)} field {n}")
         cfgs.append((label, gf["cfg"], argv_f))
+        if label == "baseline":
+            res.count("commands_parsed")
         roundtrip(path, gf["cfg"], res, rp, f"[{' '.join(argv_f)}]")
 
     # 1b. all options at once, sources dealt round-robin (cross-option interference: e.g. env replacing file values)
@@ -807,7 +811,7 @@ def run_command(path: tuple[str, ...], tier: str) -> Result:
             for n in cmd.CONFIG_TYPE.model_fields:
                 a, b = getattr(cfg, n), getattr(again.config, n)
                 if not M.equal_config_value(a, b):
-                    res.violate(f"C18|rerun|{via}|value-changed|{kinds.get(n, n)}", f"{' '.join(path)} field {n}: {a!r} re-run with {b!r} {where}", rp)
+                    res.violate(f"C18|rerun|{via}|value-changed|{kinds.get(n, n)}", f"{' '.join(path)} field {n}: {M.canon(a)!r} re-run with {M.canon(b)!r} {where}", rp)
             res.seen("nontrivial", ("rerun", via, tuple(path), label))
     return res
 
@@ -1060,6 +1064,7 @@ def items(tier: str, seed: int) -> list[tuple[Any, ...]]:
 
 
 def run_item(item: tuple[Any, ...]) -> Result:
+    G.pop("parser_cache", None)  # counters must not depend on which items share a worker
     if item[0] == "template":
         return run_template(item[1], tuple(item[2]) if item[2] is not None else None)
     if item[0] == "command":
@@ -1111,14 +1116,17 @@ def finish(merged: Result, tier: str) -> dict[str, Any]:
     need_combos = {a + b for a in ("-", "c", "e", "f", "ce", "cf", "ef", "cef") for b in ("", "+d")}
     if not need_combos <= combos:
         raise Broken(f"vacuous: source combinations never exercised: {sorted(need_combos - combos)}")
-    if c.get("precedence_ok", 0) < 5000:
-        raise Broken(f"vacuous: only {c.get('precedence_ok', 0)} parses agreed with the reference")
-    if c.get("roundtrips", 0) < 5000 or c.get("rerun_file", 0) < 30 or c.get("rerun_db", 0) < 30:
-        raise Broken("vacuous: round trip / rerun hardly exercised")
-    if c.get("invalid_rejected_naming_source", 0) < 500 or c.get("template_value_honoured", 0) < 300:
+    # guards count what was *attempted* (a tree that fails everywhere must end as VIOLATION, not as broken)
+    if c.get("precedence_cases", 0) < 20000:
+        raise Broken(f"vacuous: only {c.get('precedence_cases', 0)} precedence cases evaluated")
+    if c.get("rerun_file", 0) < 30 or c.get("rerun_db", 0) < 30 or c.get("commands_parsed", 0) < 30:
+        raise Broken("vacuous: rerun hardly exercised")
+    if c.get("invalid_cases", 0) < 1500 or c.get("template_keys", 0) < 500 or c.get("registry_keys", 0) < 20:
         raise Broken("vacuous: invalid value / template clauses hardly exercised")
-    if c.get("required_missing_rejected", 0) < 10 or c.get("mixed_cases", 0) < 60:
+    if c.get("required_missing_cases", 0) < 30 or c.get("mixed_cases", 0) + c.get("mixed_attempts", 0) < 60:
         raise Broken("vacuous: required-missing / mixed-source cases hardly exercised")
+    if not c.get("violating_cases") and c.get("roundtrips", 0) < 15000:
+        raise Broken("vacuous: round trip hardly exercised although nothing failed")
     need_kinds = {"bool", "int", "autoint", "hexint", "float", "str?", "path?", "hexbytes", "uri", "uri?", "autoenum", "autoliteral", "literal", "ranges", "ranges2d", "int?"}
     missing = need_kinds - set(merged.notes.get("kinds", {}))
     if missing:
